@@ -6,6 +6,7 @@ Local Open Scope Qc_scope.
 
 (* lia chokes on hypotheses that are equations between lists of Qc (zify looks into them): drop those first *)
 Ltac ll :=
+  unfold vec, mat, qv, qm in *;
   repeat match goal with
          | H : ?a = _ |- _ =>
              let T := type of a in
@@ -209,9 +210,10 @@ Proof. intros H. unfold map_core. apply Nat.eqb_neq in H. rewrite H. reflexivity
    --------------------------------------------------------------------------------------------- *)
 Lemma np_inv_sound c C P : np_inv c C = Some P -> exists M, C = NMat M /\ qinv M = Some P.
 Proof.
-  unfold np_inv. destruct c as [a|v|M0|M0]; destruct C as [v'|M']; try discriminate;
-    try (intros H; exists M'; split; [reflexivity | exact H]).
-  destruct (Nat.eqb _ 1); [|discriminate]. intros H; exists M'; split; [reflexivity | exact H].
+  unfold np_inv. destruct c as [a|v|M0|M0].
+  1-3: destruct C as [v'|M']; [discriminate | intros H; exists M'; split; [reflexivity | exact H]].
+  destruct (Nat.eqb _ 1); [|discriminate].
+  destruct C as [v'|M']; [discriminate | intros H; exists M'; split; [reflexivity | exact H]].
 Qed.
 
 Lemma sample_direct_law fixed m n A b x0 ce cx mu C :
